@@ -1,12 +1,13 @@
+H = "Hypothesis 6.168 strategies sharded over 16 seeded workers"
 CHECKS = {
  "C01": {
-  "technique": "Hypothesis-generated planted periodic structures; validity predicate per returned match against an independent brute-force image/Kabsch classifier",
-  "text": "Thousands of generated structures (tight orthorhombic/tilted cells, all pattern and pose classes, boundary-straddling copies, decoys incl. mirror images, every hint form, seeded RNGs); every returned match is checked for length, range, distinctness, elements, being a non-clear-out rigid image under some choice of periodic images, returned positions = stored position + lattice vector, and the returned proper rotation fitting within atol component-wise. Random search: no absence proof.",
+  "technique": "Hypothesis-generated planted periodic structures (+ in-place edit histories); validity predicate per returned match against an independent brute-force image/Kabsch classifier",
+  "text": "Thousands of generated structures per run (tight orthorhombic/tilted cells, all pattern and pose classes, boundary-straddling copies, decoys incl. mirror images, every hint form, seeded RNGs; a second part searches again after in-place edits of the same object). Every returned match is checked for length, range, distinctness, elements, being a non-clear-out rigid image under some choice of periodic images, returned positions = stored position + lattice vector, and the returned proper rotation fitting within atol component-wise. Random search: no absence proof.",
   "note": "grey zone between atol/16 (clear-in) and sqrt(3)*atol (clear-out) is not judged; numpy/scipy trusted",
  },
  "C02": {
   "technique": "Hypothesis-generated planted structures vs. an independent brute-force reference matcher (three-valued) - differential on sets of atom groups",
-  "text": "IN subset-of reported subset-of IN+GREY with each group once and exact count when no grey group exists, on thousands of generated cases per run with measured distribution of boundary crossings (0-3), tilt signs, pose classes and decoys.",
+  "text": "IN subset-of reported subset-of IN+GREY with each group once and exact count when no grey group exists, on thousands of generated cases per run with measured distribution of boundary crossings (0-3), tilt signs, pose classes and decoys; plus searches after in-place edits.",
   "note": "reference matcher (mv/ref_match.py) is trusted; cases exceeding its candidate budget are skipped and counted",
  },
  "C03": {
@@ -14,10 +15,90 @@ CHECKS = {
   "text": "For each generated base case one transformation is applied and the renamed set of matched atom groups must be equal (x a*b*c under replication); differences are tolerated only for groups the reference classifies grey. Real files (uio66, uio66-triclinic, hkust-1) get the same relations, the only oracle available there.",
   "note": "replication relies on Atoms.replicate (C12); supercells bounded to ~300 atoms in the generated part",
  },
+ "C04": {
+  "technique": "Hypothesis-generated replacement cases vs. an accounting model written from the statement (identity via charge tags, reference matcher for the found groups)",
+  "text": "Atom/element counts, exactly the search-only atoms of k found groups removed, every other atom unchanged (position, element, label, mass, charge, group), k within 0.5 of f*M, inputs deep-compared with snapshots; replacement kinds empty/smaller/equal/larger/disjoint/identical, fractions incl. exact ties, replace_all on/off.",
+  "note": "cases with grey or overlapping reference groups are outside the property's domain and skipped (counted); which matches are chosen is not asserted",
+ },
+ "C05": {
+  "technique": "Hypothesis-generated replacement cases; existential proper-Kabsch fit of search+replacement coordinates onto matched+inserted atoms modulo the lattice; metamorphic joint motion; far-replacement and replace-replicate-replace histories",
+  "text": "Every block of inserted atoms must, with some replaced group and feasible ordering, be a proper rigid image of the pattern pair within a bound proportional to the match's own deviation; fractional coordinates in [0,1]; same result after moving both patterns jointly; replacement atoms several cell lengths away (wrap by more than one lattice vector); a second replacement on a replicated result of a first one (stale per-object state).",
+  "note": "first-order lever-arm amplification bound plus 2e-5 A absolute numerical slack (arccos conditioning in mofun's rotation construction)",
+ },
+ "C06": {
+  "technique": "Hypothesis-generated typed structures/patterns and replacement chains vs. a resolved-term reference model (term -> atom identities -> coefficient text), cross-checked through an independent LAMMPS reader; documented example 3",
+  "text": "Expected atoms and terms after 1-3 chained replacements are computed by a pure-Python model from the statement and compared as multisets of resolved records for all four term kinds, all table/no-table compatibility cases, the CIF-style workflow and terms inside/outside/across matches incl. overrides forwards/backwards/other order; the written LAMMPS file must resolve to the same view.",
+  "note": "cases with grey/overlapping groups or several feasible orderings are skipped and counted; type-id numbering and term order not asserted",
+ },
+ "C07": {
+  "technique": "Hypothesis constructive-overlap generator (chains, zig-zags, stars) vs. a deletion-set model over the reference matcher's groups and feasible orderings",
+  "text": "Raise iff every combination of feasible orderings removes an atom twice (and the flag is off), never for empty replacements or overlaps only in retained atoms; when a structure is returned the removed atoms are exactly one deletion set per match and surviving bonds still join the same atoms.",
+  "note": "exception message not checked; for fractions < 1 only the implications that hold for every random choice are asserted",
+ },
+ "C08": {
+  "technique": "Hypothesis identity / inverse relations (self-replacement, A->B->A, second search vs reference) on generated structures and the repository's MOF files",
+  "text": "Self-replacement with replace_all off/on must leave positions (mod lattice), elements, charges, groups, counts and term-tuple sets unchanged; A->B->A must restore the (element, position) multiset; after replacing all A a second search must agree with the reference matcher on the result; uio66 / uio66-triclinic / hkust-1 real files.",
+  "note": "accidental extra occurrences, grey or overlapping groups are skipped and counted",
+ },
+ "C09": {
+  "technique": "model-based stateful testing: Hypothesis RuleBasedStateMachine over a pool of Atoms objects mirrored by a pure-Python resolved-view model + bounded-exhaustive enumeration of all step sequences up to depth 2 (quick) / 3 (thorough); independent LAMMPS reader on every state",
+  "text": "After every step of construct / copy / delete / pop / subset / extend / replicate / replace / reload histories the real object must resolve to the model (labels, elements, masses, pair and coefficient text, terms on the same tagged atoms) and, if it has an atom, must write a LAMMPS file that an independent reader finds well-formed and that reads back to the same view. Histories that empty a term kind or all atoms before adding are generated on purpose and counted.",
+  "note": "identity through unique charge tags (re-tagged by the harness after replicate/replace); subset drops terms by documentation",
+ },
+ "C10": {
+  "technique": "exhaustive enumeration (every subset x listing orders x containers, pop, two-step deletions on a fixed family) + Hypothesis random structures, against an identity-tag model",
+  "text": "For the family of n<=5 (quick) / n<=6 (thorough) structures every non-empty subset in three orders is enumerated completely; plus random typed structures up to 12/40 atoms. Survivors in order with all data; a term survives iff untouched, with the same tagged atoms, type and extra fields.",
+  "note": "duplicate / out-of-range indices are outside the domain",
+ },
+ "C11": {
+  "technique": "exhaustive enumeration of all partial injective identity maps x modes on a fixed family + Hypothesis compatible pairs, against a resolved-term model",
+  "text": "Appended atoms in order, mapped atoms adopt type and extra fields, every term of other present once resolving to other's own coefficient text (or the shared id), same-atoms terms superseded forwards/backwards only, extra columns merged by label with '.'; default offsets, explicit offsets, repeated extension, shared ids; self emptied by deletion included.",
+  "note": "pairs generated compatible per term kind; untyped kinds compared by type partition",
+ },
+ "C12": {
+  "technique": "Hypothesis typed structures x replication triples against the direct statement (image atoms identified by position), all cell orientations",
+  "text": "a*b*c*N atoms, one atom per (original, image) at pos + iA + jB + kC with identical resolution, cell rows scaled, terms (incl. impropers, terms without bonds, per-term extra fields) copied within each image, tables unchanged, original unmodified, (1,1,1) identity.",
+  "note": "atom order of the result not asserted",
+ },
+ "C13": {
+  "technique": "Hypothesis typed structures; independent LAMMPS data reader written in the harness + load round trip + write idempotence",
+  "text": "The written text is parsed by mv/ref_lammps.py (no shared code): counts, type counts, box/tilt, masses, atoms, terms and coefficient rows must state the structure; load_lmpdat must reproduce ids, positions, cell, charges, groups, masses, labels, terms and coefficients token for token; second and third write byte-identical; path and file-object I/O agree; tables with 10-12 rows, id gaps, tiny tilts, both atom styles.",
+  "note": "elements after reload are C14's business; printed precision %10.6f",
+ },
  "C14": {
   "technique": "exhaustive enumeration of the mass table x tolerance boundaries + Hypothesis lists, against a nearest-within-tolerance specification",
   "text": "Every table entry and every mass on both sides of every tolerance boundary between mass-neighbours (incl. out-of-order pairs) is enumerated completely for six tolerances through the helper and through load_lmpdat; write/read of every element; plus generated mixed lists. Finite domain enumerated, so within it the result is complete; tolerances other than the six only sampled.",
   "note": "trusts the mass table as data; boundary cases within 1e-9 of the tolerance accept either answer",
+ },
+ "C15": {
+  "technique": "Hypothesis round trip write->read->write with textual idempotence + hand-emitted CIF variants for the reader + ase.io.read as independent reader",
+  "text": "Typed structures with all term kinds incl. impropers and extra columns in ortho/tilted/rotated cells, atoms inside/outside/on the boundary, fractional and Cartesian output; reader inputs with s.u. parentheses, Cartesian-only files, permuted tags, boundary/negative/large fractional coordinates, P1 spellings and 16 non-P1 symbols.",
+  "note": "PyCifRW 5.0.1 as installed; ASE shares cellpar_to_cell with mofun",
+ },
+ "C16": {
+  "technique": "Hypothesis-generated CML documents loaded five ways from one re-used path; direct-statement oracle",
+  "text": "One atom per entry in order with exactly the parsed coordinates and element, one bond per entry via index(ref), zero bonds when none, all five load routes equal; id schemes sequential/shuffled/sparse/arbitrary/positional traps, tiny/huge/negative-zero coordinates.",
+  "note": "namespace-free documents only (as all repository files)",
+ },
+ "C17": {
+  "technique": "exhaustive enumeration over all element pairs at cutoff*(1 +- d) through home/face/edge/corner images + Hypothesis structures; brute-force 5x5x5 minimum-image oracle; shift/permutation metamorphic relations",
+  "text": "All 4753 unordered pairs of the radius table x 6 near-cutoff distances on no cell / orthorhombic / tilted cells are enumerated in both tiers; result rows must be exactly the bonded pairs, each once, i<j.",
+  "note": "radius table taken from the module; non-metal list pinned in the harness",
+ },
+ "C18": {
+  "technique": "exhaustive / stratified enumeration of UFF type tuples against an independent re-implementation of the formulas + invariants + reversal symmetry",
+  "text": "All 221^2 bonds x bond orders x rule sets and all central pairs x outer-atom classes x multiplicities in both tiers (8.7M evaluations quick); angles for every centre x stratified ends (quick) or all 221^3 (thorough). Results to 1e-9 relative, styles/integers/None/exception status exactly; Fourier minimum, positivity, 1/M scaling, reversal.",
+  "note": "the reference shares the reading of the paper with the code; invariants and reversal are independent",
+ },
+ "C19": {
+  "technique": "Hypothesis-generated bond graphs without 3-rings x UFF type palettes x renamings / list permutations / exclusion sets; brute-force enumeration and partition/parameter/renaming invariants",
+  "text": "calc_angles / calc_dihedrals must equal brute-force enumeration each exactly once; typing partition = same sequence up to reversal (+ M); coefficient text of each term = parameters of its own sequence; undefined torsions dropped and only they; exclusion honoured; invariant under renaming and list order; retype and pair tables agree with per-atom types.",
+  "note": "parameter functions taken as given (C18); M counted before exclusion",
+ },
+ "C20": {
+  "technique": "Hypothesis-generated option combinations; differential CLI (in-process click runner) vs. the documented pipeline through the API with identical RNG seeds, byte-identical outputs; documented example commands",
+  "text": "Every option drawn with probability 1/2 and an observable non-default value (distorted copies for --atol and hints, k/M fractions, unequal --replicate, --mic forcing 2 replicas, distinct charges, --pp, --framework-element with ASE output) on lmpdat/CIF/CML inputs, CML/lmpdat/CIF patterns, lmpdat/CIF/xyz outputs.",
+  "note": "the API pipeline model is a second reading of the documentation; --dumppath/--extract-uc not exercised",
  },
 }
 NOT_YET = {}
